@@ -30,6 +30,7 @@ for prof in a.profiles.split(','):
     progs = [gen_program(rng, prof) for _ in range(a.n)]
     spec, sl = S.run_spec(ctx, progs, 'cal-s')
     keep = [(p, s) for p, s in zip(progs, spec) if s[0] == 'ok' or s[0] in ('err:divzero', 'err:label')]
+    feats = {id(p): S.features(p, s) for p, s in keep}
     jobs = []
     for p, s in keep:
         for v in S.VARIANTS:
@@ -41,9 +42,15 @@ for prof in a.profiles.split(','):
         for v in S.VARIANTS:
             for par in S.pars_of(v):
                 key = '%s|%s|%d' % (prof, v, par)
-                cell = res.setdefault(key, {'n': 0, 'fail': 0, 'kinds': {}})
+                cell = res.setdefault(key, {'n': 0, 'fail': 0, 'kinds': {}, 'n_without': {}, 'fail_without': {}})
                 r = S.verdict(s, impl[k])
                 cell['n'] += 1
+                fs = feats[id(p)]
+                for F in S.FEATURES:
+                    if F not in fs:
+                        cell['n_without'][F] = cell['n_without'].get(F, 0) + 1
+                        if r:
+                            cell['fail_without'][F] = cell['fail_without'].get(F, 0) + 1
                 if r:
                     cell['fail'] += 1
                     cell['kinds'][r] = cell['kinds'].get(r, 0) + 1
@@ -67,6 +74,12 @@ for prof in a.profiles.split(','):
         cells = []
         for par in S.pars_of(v):
             c = res.get('%s|%s|%d' % (prof, v, par))
-            cells.append('.' if c and c['fail'] == 0 else ('%d' % c['fail'] if c else '?'))
+            if not c:
+                cells.append('?')
+            elif c['fail'] == 0:
+                cells.append('.')
+            else:
+                ex = [F for F in S.FEATURES if c['fail_without'].get(F, 0) == 0 and c['n_without'].get(F, 0) >= 20]
+                cells.append('%d%s' % (c['fail'], ('[-' + ex[0][:12] + ']') if ex else ''))
         row.append(v + ':' + '/'.join(cells))
     print('%-8s' % prof, ' '.join(row))
